@@ -61,25 +61,25 @@ var c18AllowedCalls = map[string][]string{
 
 // reviewed class-C sites: "<function>|<ranged expression>" -> reason.
 var c18Reviewed = map[string]string{
-	"codegen.BuildData|b.Schema.Types":                               "Objects and Inputs are sorted after the loop, Interfaces is a map keyed by the element; the per-element builders otherwise only extend the Binder's reference list, which buildTypes folds into a map keyed by UniquenessKey (equal keys are built from the same schema/Go type pair and are interchangeable; differing GQL types panic)",
-	"codegen.*builder.buildDirectives|b.Schema.Directives":           "map -> map keyed by the directive name; Binder.TypeReference only extends the reference list (see BuildData)",
-	"codegen/config.TypeMap.ReferencedPackages|tm":                   "pkgs is sorted before it is returned; QualifyPackagePath only reads the working directory",
-	"plugin/federation.*Federation.buildEntities|schema.Types":       "entities is sorted after the loop; buildEntity only prints warnings besides building the element's own entity",
+	"codegen.BuildData|b.Schema.Types":                                        "Objects and Inputs are sorted after the loop, Interfaces is a map keyed by the element; the per-element builders otherwise only extend the Binder's reference list, which buildTypes folds into a map keyed by UniquenessKey (equal keys are built from the same schema/Go type pair and are interchangeable; differing GQL types panic)",
+	"codegen.*builder.buildDirectives|b.Schema.Directives":                    "map -> map keyed by the directive name; Binder.TypeReference only extends the reference list (see BuildData)",
+	"codegen/config.TypeMap.ReferencedPackages|tm":                            "pkgs is sorted before it is returned; QualifyPackagePath only reads the working directory",
+	"plugin/federation.*Federation.buildEntities|schema.Types":                "entities is sorted after the loop; buildEntity only prints warnings besides building the element's own entity",
 	"plugin/federation.*Federation.generateExplicitRequires|requiresEntities": "populators is sorted after the loop; the rewriter getters only mark the element's own declaration in a set",
-	"plugin/modelgen.getExtraFields|modelcfg.ExtraFields":            "extraFields is sorted after the loop; makeExtraField is a local closure that builds a value from the element alone",
-	"codegen.generatePerSchema|builds":                               "one output file per key; templates.Render resets its import state per file and carries nothing across files (side condition checked below: no codegen template uses the first-come goModelName registry)",
-	"codegen.addInterfaces|data.Interfaces":                          "map -> map keyed by the element's own key; addBuild creates the per-file Data once per file name from data common to all elements of that file; text/template ranges maps in key order",
-	"codegen.addReferencedTypes|data.ReferencedTypes":                "map -> map keyed by the element's own key (same as addInterfaces)",
-	"codegen/config.*Config.injectTypesFromSchema|c.Schema.Types":    "only calls Models.Add / ForceGenerate keyed by the element's own type name (TypeMap is a map)",
-	"codegen/config.*Config.autobind|c.Schema.Types":                 "only calls Models.Add keyed by the element's own type name; the inner loop is over a slice in configuration order",
-	"codegen/config.*Config.autobind|c.Models":                       "rewrites c.Models[i].Model[j] for the element's own key i",
-	"internal/code.*Packages.CleanupUserPackages|p.packages":         "unsorted-ok: collects keys only to delete them all: a set difference",
-	"internal/code.*Packages.Errors|p.packages":                      "unsorted-ok: the list is only used to report a failed generation (no file is written in that case)",
-	"internal/imports.Prune|unused":                                  "deletes a set of imports from the AST; the result is re-printed and import-sorted by imports.Process",
-	"plugin/federation.*Federation.generateExplicitRequires|requiresImports": "unsorted-ok: import list of one file: order is normalised by the import sorting of imports.Process in templates.Render; an alias collision aborts generation in any order",
-	"plugin/modelgen.*Plugin.MutateConfig|cfg.Schema.Types":          "unsorted-ok: Enums, Models and Interfaces are sorted right after the loop; Scalars is only used for map-keyed Models.Add and is not rendered by the model template",
-	"plugin/resolvergen.*Plugin.generatePerSchema|files":             "per-file attributes are set on the element itself",
-	"plugin/resolvergen.*Plugin.generatePerSchema|files#2":           "one output file per key, rendered independently (templates.Render keeps no state across files)",
+	"plugin/modelgen.getExtraFields|modelcfg.ExtraFields":                     "extraFields is sorted after the loop; makeExtraField is a local closure that builds a value from the element alone",
+	"codegen.generatePerSchema|builds":                                        "one output file per key; templates.Render resets its import state per file and carries nothing across files (side condition checked below: no codegen template uses the first-come goModelName registry)",
+	"codegen.addInterfaces|data.Interfaces":                                   "map -> map keyed by the element's own key; addBuild creates the per-file Data once per file name from data common to all elements of that file; text/template ranges maps in key order",
+	"codegen.addReferencedTypes|data.ReferencedTypes":                         "map -> map keyed by the element's own key (same as addInterfaces)",
+	"codegen/config.*Config.injectTypesFromSchema|c.Schema.Types":             "only calls Models.Add / ForceGenerate keyed by the element's own type name (TypeMap is a map)",
+	"codegen/config.*Config.autobind|c.Schema.Types":                          "only calls Models.Add keyed by the element's own type name; the inner loop is over a slice in configuration order",
+	"codegen/config.*Config.autobind|c.Models":                                "rewrites c.Models[i].Model[j] for the element's own key i",
+	"internal/code.*Packages.CleanupUserPackages|p.packages":                  "unsorted-ok: collects keys only to delete them all: a set difference",
+	"internal/code.*Packages.Errors|p.packages":                               "unsorted-ok: the list is only used to report a failed generation (no file is written in that case)",
+	"internal/imports.Prune|unused":                                           "deletes a set of imports from the AST; the result is re-printed and import-sorted by imports.Process",
+	"plugin/federation.*Federation.generateExplicitRequires|requiresImports":  "unsorted-ok: import list of one file: order is normalised by the import sorting of imports.Process in templates.Render; an alias collision aborts generation in any order",
+	"plugin/modelgen.*Plugin.MutateConfig|cfg.Schema.Types":                   "unsorted-ok: Enums, Models and Interfaces are sorted right after the loop; Scalars is only used for map-keyed Models.Add and is not rendered by the model template",
+	"plugin/resolvergen.*Plugin.generatePerSchema|files":                      "per-file attributes are set on the element itself",
+	"plugin/resolvergen.*Plugin.generatePerSchema|files#2":                    "one output file per key, rendered independently (templates.Render keeps no state across files)",
 }
 
 func runC18(c *Ctx) {
@@ -741,7 +741,6 @@ func (c *Ctx) callEffect(info *types.Info, call *ast.CallExpr) string {
 	}
 	return "calls an unresolved function per element"
 }
-
 
 // paramFuncEffect: o is a func-typed parameter of some generator function F; decided=true when every static call site of F in
 // the generator packages passes a function literal or named function for it — why is "" when all of them are read-only.
